@@ -1,0 +1,17 @@
+//go:build verif
+// +build verif
+
+package zap
+
+// Verification hooks, compiled only with the "verif" build tag.
+
+// VerifPollHook, when set, is called at every cancellation poll of a merge
+// (before the channel is looked at), so that a replay can close the channel at
+// an exact poll instead of at a wall-clock delay.
+var VerifPollHook func(closeCh chan struct{})
+
+func verifPoll(closeCh chan struct{}) {
+	if VerifPollHook != nil {
+		VerifPollHook(closeCh)
+	}
+}
